@@ -7,8 +7,11 @@
 
   * a key is `EnsembleKey(resource, namespace)`; `Resource.__eq__/__hash__` look at
     (group, version, plural) only — here `Res.name`; `namespaced` is an attribute, not identity;
-  * redundant = `key.namespace not in remaining_namespaces or key.resource not in remaining_resources`
-    — note the `| {None}`: a key with namespace None is never redundant by its namespace;
+  * redundant = `key.namespace not in remaining_namespaces or key.resource not in remaining_resources
+    or any(task.done() for task in ensemble.get_tasks({key}))` (the last since kopf 9ef1bcb: a task that
+    exited on its own, e.g. a watcher that got HTTP 404 while its CRD was away, is cleaned up and
+    spawned anew if the pair is still served) — note the `| {None}`: a key with namespace None is
+    never redundant by its namespace;
   * spawn: `for resource, namespace in product(watched_resources, namespaces)`,
     `namespace = namespace if resource.namespaced else None`, a task is created only if the key
     has none (`dkey not in ensemble.watcher_tasks`).
@@ -35,18 +38,25 @@ structure Insights where
 structure Ensemble where
   watchers : List (Key × Nat)   -- `ensemble.watcher_tasks`: key ↦ task (spawn number)
   next : Nat
+  dead : List Nat := []         -- tasks that have exited on their own (`task.done()`)
   deriving Repr
 
 def Ensemble.keys (e : Ensemble) : List Key := e.watchers.map (·.1)
 
-def empty : Ensemble := { watchers := [], next := 0 }
+def empty : Ensemble := { watchers := [], next := 0, dead := [] }
+
+/-- The task under key `k` exits on its own (e.g. HTTP 404 out of its stream). Nobody is notified. -/
+def kill (e : Ensemble) (k : Key) : Ensemble :=
+  match e.watchers.find? (fun t => t.1 == k) with
+  | some t => { e with dead := t.2 :: e.dead }
+  | none => e
 
 /-- `not redundant` in `terminate_redundancies` -/
 def remaining (ins : Insights) (k : Key) : Bool :=
   (ins.namespaces.contains k.2 || k.2 == none) && ins.watched.any (fun r => r.name == k.1)
 
 def terminate (e : Ensemble) (ins : Insights) : Ensemble :=
-  { e with watchers := e.watchers.filter (fun t => remaining ins t.1) }
+  { e with watchers := e.watchers.filter (fun t => remaining ins t.1 && !e.dead.contains t.2) }
 
 /-- `namespace = namespace if resource.namespaced else None; dkey = EnsembleKey(resource, namespace)` -/
 def dkey (r : Res) (n : Ns) : Key := (r.name, if r.namespaced then n else none)
@@ -56,7 +66,7 @@ def pairs (ins : Insights) : List (Res × Ns) :=
 
 def spawnOne (e : Ensemble) (p : Res × Ns) : Ensemble :=
   let k := dkey p.1 p.2
-  if e.keys.contains k then e else { watchers := e.watchers ++ [(k, e.next)], next := e.next + 1 }
+  if e.keys.contains k then e else { e with watchers := e.watchers ++ [(k, e.next)], next := e.next + 1 }
 
 def spawn (e : Ensemble) (ps : List (Res × Ns)) : Ensemble := ps.foldl spawnOne e
 
@@ -67,6 +77,24 @@ def adjust (e : Ensemble) (ins : Insights) : Ensemble := spawn (terminate e ins)
 def runHist (e : Ensemble) : List Insights → Ensemble
   | [] => e
   | ins :: rest => runHist (adjust e ins) rest
+
+/-- Revisions of the insights (each followed by a pass) interleaved with tasks dying on their own. -/
+inductive Ev where
+  | pass (ins : Insights)
+  | die (k : Key)
+  deriving Repr
+
+def runEvs (e : Ensemble) : List Ev → Ensemble
+  | [] => e
+  | .pass ins :: rest => runEvs (adjust e ins) rest
+  | .die k :: rest => runEvs (kill e k) rest
+
+def Ev.insights : Ev → List Insights
+  | .pass ins => [ins]
+  | .die _ => []
+
+/-- A watcher of `k` that is still running. -/
+def Live (e : Ensemble) (k : Key) : Prop := ∃ i, (k, i) ∈ e.watchers ∧ i ∉ e.dead
 
 /-- The watches the property asks for: one per served (resource, namespace) pair, with the
     namespace None for cluster-scoped resources. -/
